@@ -1267,3 +1267,143 @@ func c04IsPlusOne(v ssa.Value, ph *ssa.Phi) bool {
 	_, isC := y.(*ssa.Const)
 	return x == ssa.Value(ph) && isK && isC && k == 1
 }
+
+// elemAtMatchedIndex: f loads list[ip] where the position ip was handed out of a scan of the same list value,
+//
+//	ip := -1; for i := range list { e := list[i]; if <match e> { ip = i; break } }; if ip >= 0 { use list[ip] }
+//
+// (what an expanded slices.IndexFunc leaves behind). A comparison of ip with a constant that holds where f is loaded
+// rules out the incoming edges of ip that carry a constant failing it (the "not found" sentinel); if every edge that
+// is left carries one and the same scan index v, then list[ip] is the element list[v] of the iteration on which the
+// scan was left, and the branch outcomes known on ALL of those edges hold for it. Returned: those outcomes and the
+// in-scan loads of list[v] they speak about.
+func elemAtMatchedIndex(f ssa.Value) (conds []Guard, recs map[ssa.Value]bool, ok bool) {
+	ld, isLd := f.(*ssa.UnOp)
+	if !isLd || ld.Op != token.MUL {
+		return nil, nil, false
+	}
+	ia, isIA := ld.X.(*ssa.IndexAddr)
+	if !isIA {
+		return nil, nil, false
+	}
+	ip, isPhi := stripCT(ia.Index).(*ssa.Phi)
+	if !isPhi {
+		return nil, nil, false
+	}
+	holds := func(c int64, op token.Token, k int64) bool {
+		switch op {
+		case token.EQL:
+			return c == k
+		case token.NEQ:
+			return c != k
+		case token.LSS:
+			return c < k
+		case token.LEQ:
+			return c <= k
+		case token.GTR:
+			return c > k
+		case token.GEQ:
+			return c >= k
+		}
+		return true
+	}
+	type fact struct {
+		op token.Token
+		k  int64
+	}
+	var facts []fact
+	for _, g := range Guards(ld.Block()) {
+		x, y, op, isCmp := CmpFact(g.Cond, g.True)
+		if !isCmp || stripCT(x) != ssa.Value(ip) {
+			continue
+		}
+		if k, isK := constInt(y); isK {
+			facts = append(facts, fact{op, k})
+		}
+	}
+	if len(facts) == 0 {
+		return nil, nil, false
+	}
+	// constants an edge value can stand for (a constant, or a merge of constants and itself)
+	var constsOf func(v ssa.Value, seen map[ssa.Value]bool) ([]int64, bool)
+	constsOf = func(v ssa.Value, seen map[ssa.Value]bool) ([]int64, bool) {
+		v = stripCT(v)
+		if k, isK := constInt(v); isK {
+			return []int64{k}, true
+		}
+		ph, isP := v.(*ssa.Phi)
+		if !isP || seen[v] {
+			return nil, isP && seen[v]
+		}
+		seen[v] = true
+		var out []int64
+		for _, e := range ph.Edges {
+			ks, okK := constsOf(e, seen)
+			if !okK {
+				return nil, false
+			}
+			out = append(out, ks...)
+		}
+		return out, true
+	}
+	var v ssa.Value
+	var from []*ssa.BasicBlock
+	for i, e := range ip.Edges {
+		if ks, isK := constsOf(e, map[ssa.Value]bool{ssa.Value(ip): true}); isK {
+			for _, c := range ks {
+				feasible := true
+				for _, fc := range facts {
+					if !holds(c, fc.op, fc.k) {
+						feasible = false
+					}
+				}
+				if feasible {
+					return nil, nil, false // a constant position: nothing is known about the element there
+				}
+			}
+			continue
+		}
+		e = stripCT(e)
+		if v != nil && v != e {
+			return nil, nil, false
+		}
+		v = e
+		from = append(from, ip.Block().Preds[i])
+	}
+	if v == nil || len(from) == 0 {
+		return nil, nil, false
+	}
+	// the in-scan loads of list[v]: same list value, same index value
+	recs = map[ssa.Value]bool{}
+	Instrs(ld.Parent(), func(_ *ssa.BasicBlock, _ int, in ssa.Instruction) {
+		l2, isL := in.(*ssa.UnOp)
+		if !isL || l2.Op != token.MUL {
+			return
+		}
+		if a2, isA := l2.X.(*ssa.IndexAddr); isA && a2.X == ia.X && stripCT(a2.Index) == v {
+			recs[l2] = true
+		}
+	})
+	if len(recs) == 0 {
+		return nil, nil, false
+	}
+	// outcomes known on every edge that carries v
+	for k, pr := range from {
+		cs := condsAt(pr, ip.Block())
+		if k == 0 {
+			conds = cs
+			continue
+		}
+		var keep []Guard
+		for _, g := range conds {
+			for _, h := range cs {
+				if g.Cond == h.Cond && g.True == h.True {
+					keep = append(keep, g)
+					break
+				}
+			}
+		}
+		conds = keep
+	}
+	return conds, recs, true
+}
